@@ -201,6 +201,23 @@ ROUND10 = {
     "C20": " The USE fan-out is started by the cluster worker only.",
 }
 
+# clauses added by the eleventh seed round
+ROUND11 = {
+    "C01": " The set of types that have the zero-length empty value is the protocol's.",
+    "C05": " A refresh keeps an old node object only if its enabled flag equals the host filter's current verdict.",
+    "C07": " The page producer stops when the consumer is gone, also when pages and errors share one send.",
+    "C08": " The lending row iterator answers None only when the announced row count is exhausted.",
+    "C09": " The EXECUTE re-sent after UNPREPARED carries the caller's parameters.",
+    "C10": " The keepaliver is started with the configured interval and timeout, unconditionally.",
+    "C12": " The replica set of an NTS keyspace walks every datacenter.",
+    "C14": " Cached result metadata stands in only for a response that carries none.",
+    "C16": " Column and field names are compared exactly (no case folding).",
+    "C17": " A failed delegated type_check (element, key, value, field, column) never becomes acceptance.",
+    "C18": " The driver never overwrites a statement's explicit timestamp.",
+    "C19": " Freshly fetched full metadata is published as fetched.",
+    "C20": " A fresh connection's keyspace setup succeeds only on an answered USE.",
+}
+
 NOT_APPLICABLE = {
 }
 
@@ -219,7 +236,7 @@ def main():
                 "evidence_file": "/verif/evidence/%s.json" % pid,
                 "replay_cmd_template": "./check explain {path}",
                 "engine": "scyllalint",
-                "level_claimed": {"category": "other", "text": text + ROUND4.get(pid, "") + ROUND5.get(pid, "") + ROUND6.get(pid, "") + ROUND7.get(pid, "") + ROUND8.get(pid, "") + ROUND9.get(pid, "") + ROUND10.get(pid, ""), "design_ref": ref},
+                "level_claimed": {"category": "other", "text": text + ROUND4.get(pid, "") + ROUND5.get(pid, "") + ROUND6.get(pid, "") + ROUND7.get(pid, "") + ROUND8.get(pid, "") + ROUND9.get(pid, "") + ROUND10.get(pid, "") + ROUND11.get(pid, ""), "design_ref": ref},
                 "level_note": note,
                 "technique": tech,
             })
